@@ -411,6 +411,18 @@ fn warm_up() {
     CLOCK_NS.with(|c| c.set(T0));
     install_clock();
     let _ = catch(|| drop(http_serve::serve(entity, &req)));
+    // ... and one small multipart GET (no If-Range, no entity headers), drained, so that
+    // whatever the multipart path might remember is in a known state as well.
+    let meta = Arc::new(Meta { len: 1000, seed: 1, etag: None, mtime_ns: None, headers: Vec::new() });
+    let world = World::new(T0);
+    world.st.lock().unwrap().tape = Some(Tape::replay(Vec::new()));
+    let entity = SimEntity { meta, world: world.clone() };
+    let req = http::Request::builder().method("GET").uri("/warm-up").header("range", "bytes=0-0,2-2").body(()).unwrap();
+    let _ = catch(|| {
+        let resp = http_serve::serve(entity, &req);
+        let mut body: std::pin::Pin<Box<SimBody>> = Box::pin(resp.into_body());
+        let _ = drain(&mut body, &world, Policy::Drain, 0, 0);
+    });
     http_serve::verif::set_clock(None);
 }
 
@@ -466,6 +478,26 @@ pub fn run(ctx: &mut Ctx) -> Result<RunOut, Violation> {
             plan.has_if_range = true;
         }
     }
+    // A server thread serves many entities: with probability 1/3 another, unrelated exchange
+    // (own entity, own request, fault-free) happens first on this thread. Its outcome is not
+    // judged here; what it may leave behind is part of this run's history.
+    if t.chance(1, 3) {
+        let pre_now = gen_clock(t);
+        let pre_bias = [1u32, 2][t.draw(2) as usize];
+        let pre_meta = Arc::new(gen_meta(t, pre_now, pre_bias));
+        let pre_rk = ReqKnobs { methods: 1, ranges: [0u32, 1, 2, 2][t.draw(4) as usize], conditionals: t.chance(1, 3), hostile: false };
+        let mut pre_plan = gen_request(t, &pre_meta, pre_now, &pre_rk);
+        if t.chance(1, 4) {
+            if let Some(e) = &pre_meta.etag {
+                pre_plan.headers.push(("if-range".into(), e.clone()));
+                pre_plan.has_if_range = true;
+            }
+        }
+        let pre_cfg = quiet_cfg(t);
+        let _ = exchange(ctx, &pre_meta, pre_now, &pre_plan, &pre_cfg);
+        ctx.stats.bump("prelude_exchanges");
+    }
+    let t = &mut ctx.tape;
     let mut knobs = gen_knobs(t, faults);
     if focus == "C12" {
         // Only contract-honouring misbehaviour: failing early with an Err.
@@ -1363,9 +1395,33 @@ fn run_c15(ctx: &mut Ctx) -> Result<RunOut, Violation> {
     let cfg = ExchangeCfg { policy: gen_policy(t), overpoll: 0, fresh_waker_p8: 0, knobs: gen_knobs(t, false), arm_fault: false, extra_faults: 0, clock_step_ns: 0 };
     let adv = [0u128, 1, NS, 3600 * NS][t.draw(4) as usize];
     let t2 = (t1 + adv).min((MAX_SECS as u128 - 1) * NS);
-    let exg = exchange(ctx, &meta, t1, &get, &cfg);
     let cfg_h = ExchangeCfg { policy: Policy::Drain, overpoll: 1, fresh_waker_p8: 0, knobs: StreamKnobs::default(), arm_fault: false, extra_faults: 0, clock_step_ns: 0 };
-    let exh = exchange(ctx, &meta, t2, &head, &cfg_h);
+    // History on this thread before the pair: sometimes the *same* entity and ranges were just
+    // requested with the opposite If-Range situation (a client probing with HEAD, say).
+    let variant = ctx.tape.draw(3);
+    if variant > 0 {
+        let mut v = plan.clone();
+        if v.has_if_range {
+            v.headers.retain(|h| h.0 != "if-range");
+            v.has_if_range = false;
+        } else if let Some(e) = &meta.etag {
+            v.headers.push(("if-range".into(), e.clone()));
+            v.has_if_range = true;
+        }
+        v.method = if variant == 1 { "HEAD".into() } else { "GET".into() };
+        let _ = exchange(ctx, &meta, t1, &v, &cfg_h);
+        ctx.stats.bump("c15_variant_exchange_first");
+    }
+    let head_first = ctx.tape.chance(1, 2);
+    let (exg, exh) = if head_first {
+        let exh = exchange(ctx, &meta, t2, &head, &cfg_h);
+        let exg = exchange(ctx, &meta, t1, &get, &cfg);
+        (exg, exh)
+    } else {
+        let exg = exchange(ctx, &meta, t1, &get, &cfg);
+        let exh = exchange(ctx, &meta, t2, &head, &cfg_h);
+        (exg, exh)
+    };
     ctx.stats.sim_time_ns += adv;
     if exg.any_panic().is_some() || exh.any_panic().is_some() {
         ctx.stats.bump("runs_cut_short_by_a_panic_(reported_by_C13/C20)");
